@@ -176,5 +176,5 @@ package sio
 // (pending and emitted are two distinct local variables of ProcessMsg: their cells are non-nil and different.)
 //@   requires pending != nil && emitted != nil && pending != emitted
 //@   ensures[C14] requeued: len(*pending) == old(len(*pending)) + 1 && (*pending)[len(*pending) - 1] == msg
-//@   ensures[C14] reported: len(*emitted) == old(len(*emitted)) + 1 && (*emitted)[len(*emitted) - 1] == msg
-//@   ensures[C14] noerr: err == nil
+//@   ensures[C08,C14] reported: len(*emitted) == old(len(*emitted)) + 1 && (*emitted)[len(*emitted) - 1] == msg
+//@   ensures[C08,C14] noerr: err == nil
